@@ -82,6 +82,9 @@ structure Proc where
       handler of `RealSystem` records a signal once until it is collected) -/
   caught : List Sig
   status : Status
+  /-- number of children whose termination `wait` has already reported: their process ids no longer name
+      any process (`kill` answers ESRCH) -/
+  reaped : Nat := 0
 
 def Proc.init : Proc :=
   { mask := SigSet.empty, pending := SigSet.empty, disp := fun _ => .dfl, caught := [], status := .running }
@@ -143,6 +146,7 @@ def takeCaught (p : Proc) : List Sig × Proc := (p.caught, { p with caught := []
 def fork (p : Proc) : Proc :=
   { mask := p.mask, pending := SigSet.empty, disp := p.disp, caught := [], status := .running }
 
-def exit (p : Proc) (n : Nat) : Proc := if p.alive then { p with status := .exited n } else p
+/-- `_exit(n)`: the kernel keeps the low 8 bits of the status — that is all `wait` can report -/
+def exit (p : Proc) (n : Nat) : Proc := if p.alive then { p with status := .exited (n % 256) } else p
 
 end YashModel.Kernel.Signal
